@@ -22,11 +22,35 @@ pub struct Cfg {
     pub hr_offsets: Option<bool>,
     #[serde(default)]
     pub lazer: Option<bool>,
+    /// additional mods given as intermode acronyms (lazer-only mods: "IN", "HO", "4K", "MR", ...)
+    #[serde(default)]
+    pub acronyms: Option<String>,
 }
 
 impl Cfg {
+    pub fn game_mods(&self) -> rosu_pp::GameMods {
+        match &self.acronyms {
+            None => self.mods.into(),
+            Some(a) => {
+                let mut im = rosu_mods::GameModsIntermode::from_bits(self.mods);
+                for acr in a.split(',').filter(|s| !s.is_empty()) {
+                    im.insert(rosu_mods::GameModIntermode::from_acronym(
+                        acr.parse::<rosu_mods::Acronym>().expect("acronym"),
+                    ));
+                }
+                im.into()
+            }
+        }
+    }
+
+    pub fn with_acronyms(&self, a: &str) -> Cfg {
+        let mut c = self.clone();
+        c.acronyms = Some(a.to_string());
+        c
+    }
+
     pub fn difficulty(&self) -> Difficulty {
-        let mut d = Difficulty::new().mods(self.mods);
+        let mut d = Difficulty::new().mods(self.game_mods());
         if let Some(c) = self.clock_rate {
             d = d.clock_rate(c);
         }
